@@ -190,3 +190,80 @@ def run_cluster_bounds(ctx, rep):
                               'two reserved FAT entries (valid numbers are 2 ..= total_clusters + 1): the last clusters of '
                               'the volume are cut off or padding entries admitted')
     rep.counts['W4.sites'] = n
+
+
+# ---------------------------------------------------------------------------------------------
+# W2c  the FAT12 free-entry scan does not read the entry at `end_cluster`
+
+def run_fat12_scan_bound(ctx, rep):
+    """A FAT12 table can be filled by its entries to the last byte, so reading the entry *at* the exclusive bound fails with
+    an unexpected-EOF instead of ending the scan with `NotEnoughSpace` - and the allocator's wrap-around leg keys on
+    exactly that error. Structural necessary condition: between the increment of the scanned cluster number and the next
+    table read there is a comparison of the cluster number with the bound."""
+    facts = ctx.facts
+    fn = facts.fns.get('<fatfs::table::Fat<u8> as fatfs::table::FatTrait>::find_free')
+    if fn is None:
+        rep.machinery('ANCHOR-MISSING Fat12::find_free')
+        return
+    d = Deps(fn)
+    end_param = next((i for i in range(1, fn.argc + 1) if (fn.locals[i].get('name') or '') == 'end_cluster'), 3)
+    # the scanned local: compared with the bound parameter
+    bound_blocks, scanned = set(), set()
+    for bi in fn.reachable():
+        t = fn.blocks[bi]['term']
+        if t['k'] != 'switch':
+            continue
+        src = switch_source(fn, bi)
+        if src and src['kind'] == 'binop' and src['op'] in ('Eq', 'Ne', 'Lt', 'Le', 'Gt', 'Ge'):
+            ta, tb = d.of_operand(src['a']), d.of_operand(src['b'])
+            for x, tx, ty in ((src['a'], ta, tb), (src['b'], tb, ta)):
+                if ('param', end_param) in ty and ('param', end_param) not in tx:
+                    bound_blocks.add(bi)
+                    scanned |= {tk[1] for tk in tx if tk[0] == 'local' and (fn.locals[tk[1]].get('name') or '')}
+    incs = set()
+    for bi in fn.reachable():
+        for s in fn.blocks[bi]['stmts']:
+            if s['k'] == 'assign' and not s['lhs']['p'] and s['lhs']['l'] in scanned and s['rv']['k'] in ('use', 'binop'):
+                toks = d.of_operand(s['rv']['a']) if s['rv']['k'] == 'use' else d.of_operand(s['rv']['a']) | d.of_operand(s['rv']['b'])
+                if ('op', 'Add') in toks and ('const', 1) in toks:
+                    incs.add(bi)
+    loops = fn.loops()
+    in_loop = set()
+    for body in loops.values():
+        in_loop |= set(body)
+    reads = {b for b, t in fn.calls() if (t.get('callee') or '').rsplit('::', 1)[-1] in ('read_u16_le', 'read_u8') and b in in_loop}
+    ok = bool(incs) and bool(bound_blocks) and bool(reads)
+    bad = None
+    for ib in incs:
+        if ib in bound_blocks:
+            # increment and bound test in one block: fine when the comparison comes after the increment
+            st_ = fn.blocks[ib]['stmts']
+            i_inc = max(i for i, s in enumerate(st_) if s['k'] == 'assign' and not s['lhs']['p'] and s['lhs']['l'] in scanned)
+            i_cmp = max((i for i, s in enumerate(st_) if s['k'] == 'assign' and s['rv']['k'] == 'binop' and
+                         s['rv']['op'] in ('Eq', 'Ne', 'Lt', 'Le', 'Gt', 'Ge')), default=-1)
+            if i_cmp > i_inc:
+                continue
+        hit = set(fn.reach_from(list(fn.succ(ib)), cut_blocks=bound_blocks | incs)) & reads
+        if hit:
+            ok = False
+            bad = sorted(hit)[0]
+    rep.oblige('W2c', fn.name, ok=ok, nontrivial=True,
+               sample={'fn': fn.name, 'increments': len(incs), 'bound_tests': len(bound_blocks), 'table_reads_in_loop': len(reads)})
+    if not (incs and bound_blocks and reads):
+        rep.machinery('ANCHOR Fat12::find_free: increment / bound test / table read not found (%d / %d / %d)' % (
+            len(incs), len(bound_blocks), len(reads)))
+    elif not ok:
+        t = fn.blocks[bad]['term']
+        rep.violation('W2c', vkey('W2c', fn.name, 'read-at-bound', ''), fn.loc(t['span']),
+                      'the FAT12 scan reads the next table entry after incrementing the cluster number without first comparing it '
+                      'with the end of the scan range: on a table that its entries fill exactly, the read of the entry at the '
+                      'bound fails (unexpected end of the table) instead of the scan ending with NotEnoughSpace, and the '
+                      'allocator never wraps around')
+
+
+_run_20 = run
+
+
+def run(ctx, rep):
+    _run_20(ctx, rep)
+    run_fat12_scan_bound(ctx, rep)
